@@ -80,13 +80,20 @@ Definition arr_eqb (a b : ndarray Z Z) : bool := Z.eqb (dt a) (dt b) && zt_eqb (
 (* a case: id, request, input, the implementation's outcome, and the dtype codes of the input and of the result
    (taken from the run of the same request on another dtype; equal codes when the request is rejected) *)
 Definition case := (int * op * lit * res lit * (Z * Z))%type.
+(* Every case is evaluated on the statement-by-statement model (typed backend).  The hand model of Model/Base.v /
+   BaseExt.v is the same function by theorem (C01_g_is_model, C01_g_matricize_signed_is_model,
+   C01_g_moveaxis_generic_is_model; OMove / OTrans / OReshape are the same primitives in both), so evaluating it as well
+   doubles the cost without adding information: it is evaluated on one case in eight as a cross-check of the decoder and
+   of the `run` wrapper. *)
 Definition agree (c : case) : bool :=
-  let '(_, o, t, expected, (tin, tout)) := c in
-  res_eqb zt_eqb (run o (dec t)) (match expected with Ok e => Ok (dec e) | Err => Err end) &&
+  let '(i, o, t, expected, (tin, tout)) := c in
   match run_g o (mkarr tin (dec t)) with
   | Some r => res_eqb arr_eqb r (match expected with Ok e => Ok (mkarr tout (dec e)) | Err => Err end)
-  | None => true
-  end.
+  | None => false
+  end &&
+  (if Uint63.eqb (Uint63.land i 7%uint63) 0%uint63
+   then res_eqb zt_eqb (run o (dec t)) (match expected with Ok e => Ok (dec e) | Err => Err end)
+   else true).
 (* The ids of the failing cases are returned as Z (binary), not nat: reading a unary nat of depth ~50000 back from the
    VM overflows the stack, which would turn a run WITH disagreements into "shard not evaluated". *)
 Definition ident (c : case) : Z := let '(i, _, _, _, _) := c in Uint63.to_Z i.
